@@ -804,10 +804,11 @@ def run_special(ck, keys, info, classic, DC, ProtocolVersion, RKHTv1):
 
 
 def run_inconsistent(ck, keys, info, classic, ele_v1, DC, ProtocolVersion, drv):
-    """Configurations whose pieces contradict each other: SPSDK must refuse them or create something that round-trips."""
+    """Configurations whose pieces contradict each other must be refused at creation (SPSDK error), consistent ones accepted."""
     s = ck.stream("dc_inconsistent", "configurations with a DCK of another type / size than the RoT key, a UUID that is not 16 bytes long, an explicit "
-                  "protocol version contradicting the RoT key: creation is refused, or the credential parses back to the configured values; what is "
-                  "created is also compared with the model (which has struct.pack's padding / truncation)")
+                  "protocol version contradicting the RoT key (RSA / ECC classes): create_from_yaml_config must refuse them with an SPSDK error; "
+                  "consistent controls (incl. an EdgeLock credential with an explicit other version) must be created and round-trip; accept / refuse "
+                  "decision also compared with the model (createCheck over the generated refusal tests)")
     fam_c = "lpc55s36" if "lpc55s36" in classic else classic[0]
     fam_r = "lpc55s69" if "lpc55s69" in classic else classic[0]
     fam_e = ele_v1[0] if ele_v1 else None
@@ -819,22 +820,26 @@ def run_inconsistent(ck, keys, info, classic, ele_v1, DC, ProtocolVersion, drv):
              "rot_meta": [K[rot][f"srk{i}"][1] for i in range(n)], "rot_id": used, "rotk": K[rot][f"srk{used}"][0], "dck": K[dck]["dck"][1]}
         c.update(kw)
         return c
+    # (kind, description, config, explicit version, must be refused, rot kind, dck kind)
     for rot, dck in (("ecc256", "ecc384"), ("ecc384", "ecc256"), ("ecc256", "ecc521"), ("ecc521", "ecc384"), ("ecc256", "rsa2048")):
-        todo.append(("dck", {"rot": rot, "dck": dck, "family": fam_c}, cfg(fam_c, rot, dck, 2, 1), None))
+        todo.append(("dck", {"rot": rot, "dck": dck, "family": fam_c}, cfg(fam_c, rot, dck, 2, 1), None, True, rot, dck))
     for rot, dck in (("rsa2048", "rsa4096"), ("rsa4096", "rsa2048"), ("rsa2048", "ecc256")):
-        todo.append(("dck", {"rot": rot, "dck": dck, "family": fam_r}, cfg(fam_r, rot, dck, 1, 0), None))
+        todo.append(("dck", {"rot": rot, "dck": dck, "family": fam_r}, cfg(fam_r, rot, dck, 1, 0), None, True, rot, dck))
     if fam_e:
-        todo.append(("dck", {"rot": "ecc256", "dck": "ecc384", "family": fam_e}, cfg(fam_e, "ecc256", "ecc384", 4, 2), None))
+        todo.append(("dck", {"rot": "ecc256", "dck": "ecc384", "family": fam_e}, cfg(fam_e, "ecc256", "ecc384", 4, 2), None, True, "ecc256", "ecc384"))
+        todo.append(("control", {"rot": "ecc256", "version": "2.1", "family": fam_e}, cfg(fam_e, "ecc256", "ecc256", 4, 1), "2.1", False, "ecc256", "ecc256"))
     for u in ("", "0011", "11" * 15, "22" * 17, "33" * 20):
-        todo.append(("uuid", {"uuid": u, "family": fam_c}, cfg(fam_c, "ecc256", "ecc256", 1, 0, uuid=u), None))
-        todo.append(("uuid", {"uuid": u, "family": fam_r}, cfg(fam_r, "rsa2048", "rsa2048", 2, 0, uuid=u), None))
+        todo.append(("uuid", {"uuid": u, "family": fam_c}, cfg(fam_c, "ecc256", "ecc256", 1, 0, uuid=u), None, True, "ecc256", "ecc256"))
+        todo.append(("uuid", {"uuid": u, "family": fam_r}, cfg(fam_r, "rsa2048", "rsa2048", 2, 0, uuid=u), None, True, "rsa2048", "rsa2048"))
     for rot, ver, fam in (("ecc256", "2.1", fam_c), ("ecc384", "2.0", fam_c), ("ecc384", "2.2", fam_c), ("rsa2048", "1.1", fam_r), ("rsa4096", "1.0", fam_r),
                           ("ecc256", "1.0", fam_c)):
-        todo.append(("version", {"rot": rot, "version": ver, "family": fam}, cfg(fam, rot, rot, 1, 0), ver))
+        todo.append(("version", {"rot": rot, "version": ver, "family": fam}, cfg(fam, rot, rot, 1, 0), ver, True, rot, rot))
+    for rot, ver, fam in (("ecc256", "2.0", fam_c), ("ecc384", None, fam_c), ("ecc521", "2.2", fam_c), ("rsa2048", "1.0", fam_r), ("rsa4096", None, fam_r)):
+        todo.append(("control", {"rot": rot, "version": ver, "family": fam}, cfg(fam, rot, rot, 2, 1), ver, False, rot, rot))
+    vkey = {("rsa", 2048): "1.0", ("rsa", 4096): "1.1", ("ecc", 256): "2.0", ("ecc", 384): "2.1", ("ecc", 521): "2.2"}
     reqs = []
-    for kind, desc, c, ver in todo:
+    for kind, desc, c, ver, refuse, rot, dck in todo:
         inp = {"inconsistency": kind, **desc}
-        want_uuid = bytes.fromhex(c["uuid"])
 
         def build(c=c, ver=ver):
             d = DC.create_from_yaml_config(dict(c), version=ProtocolVersion(ver) if ver else None)
@@ -842,18 +847,19 @@ def run_inconsistent(ck, keys, info, classic, ele_v1, DC, ProtocolVersion, drv):
             return d, d.export()
         r = pyres(build)
         s.note(inp, cls=f"{kind}:{r[0]}")
-        if r[0] != "ok":
-            continue  # nothing was created (an SPSDK error is the documented way; other classes are counted in the histogram)
-        dc, data = r[1]
-        pr = pyres(DC.parse, data)
-        same = pr[0] == "ok" and pyres(lambda: pr[1] == dc and pr[1].uuid == want_uuid and pr[1].dck_pub == dc.dck_pub and pr[1].export() == data) == ("ok", True)
-        s.expect(same, inp, "SPSDK silently creates a credential from a self-contradictory configuration (wrong UUID length / DCK of another size "
-                 "than the RoT key / protocol version contradicting the RoT key) that does not parse back to the configured values",
-                 pr[0] if pr[0] != "ok" else {"uuid": pr[1].uuid.hex()}, finding="C15-create-accepts-inconsistent-config")
-        if type(dc).__name__ in CLS:
-            toks = dc_tokens(dc)
-            reqs.append((inp, "export " + toks, "ok:" + data.hex(), "model export differs"))
-            reqs.append((inp, "tbs " + toks, canon(pyres(dc._get_data_to_sign)), "model data-to-sign differs"))
+        if refuse:
+            s.expect(r[0] == "E:spsdk", inp, "create_from_yaml_config does not refuse (with an SPSDK error) a self-contradictory configuration: wrong UUID "
+                     "length / DCK of another type or size than the RoT key / protocol version contradicting the RoT key", r[0])
+        else:
+            ok = r[0] == "ok" and pyres(lambda: DC.parse(r[1][1]) == r[1][0]) == ("ok", True)
+            s.expect(ok, inp, "a consistent configuration is refused or does not round-trip", r[0])
+        # model: class and version as the real code determines them (explicit version, else from the RoT key)
+        rk, rb, dk, db = rot[:3], int(rot[3:]), dck[:3], int(dck[3:])
+        v = ver or vkey[(rk, rb)]
+        fi = info[desc["family"]]
+        cls = "ele" if fi["ele"] else ("rsa" if v.startswith("1.") else "ecc")
+        ulen = len(bytes.fromhex(c["uuid"]))
+        reqs.append((inp, f"create_check {cls} {v[0]} {v[2]} {ulen} {rk} {rb} {dk} {db}", "ok:" if r[0] == "ok" else r[0], "model accept / refuse decision of creation differs"))
     if drv is not None and reqs:
         for (inp, _l, real, what), ans in zip(reqs, drv.batch([r[1] for r in reqs])):
             s.compare(inp, real, ans, what)
